@@ -165,8 +165,33 @@ class Arr:
     def tolist(self):
         return self.data
 
+    def index(self, idx):
+        """numpy basic indexing with ints / slices (one per leading axis), on the nested lists; anything else is refused."""
+        idx = idx if isinstance(idx, tuple) else (idx,)
+
+        def go(d, ix):
+            if not ix:
+                return copy_nested(d)
+            i, rest = ix[0], ix[1:]
+            if not isinstance(d, list):
+                raise Raised("IndexError")
+            if isinstance(i, bool) or not isinstance(i, (int, slice)):
+                raise Refuse("array index kind")
+            if isinstance(i, int):
+                try:
+                    return go(d[i], rest)
+                except IndexError:
+                    raise Raised("IndexError")
+            return [go(x, rest) for x in d[i]]
+        r = go(self.data, idx)
+        return Arr(r) if isinstance(r, list) else r
+
     def __repr__(self):
         return f"Arr{self.shape}"
+
+
+def copy_nested(d):
+    return [copy_nested(x) for x in d] if isinstance(d, list) else d
 
 
 def _binop(op, a, b):
@@ -680,6 +705,9 @@ class Folder:
                 except (IndexError, TypeError):
                     raise Raised("IndexError")
                 return Arr(r) if isinstance(r, list) else r
+            if isinstance(i, tuple) and i and all(isinstance(x, (int, slice)) and not isinstance(x, bool) for x in i) \
+                    and all(x.start is None or isinstance(x.start, int) for x in i if isinstance(x, slice)) and all(x.stop is None or isinstance(x.stop, int) for x in i if isinstance(x, slice)):
+                return v.index(i)
             raise Refuse("array index")
         if isinstance(v, (str, list, tuple)):
             if not isinstance(i, int) or isinstance(i, bool):
@@ -705,6 +733,10 @@ class Folder:
         v = self.ev(n.value, env) if not (isinstance(n.value, ast.Name) and n.value.id in ("np", "numpy", "math")) else None
         if isinstance(v, Arr) and n.attr == "shape":
             return v.shape
+        if isinstance(v, Arr) and n.attr == "ndim":
+            return len(v.shape)
+        if isinstance(v, Arr) and n.attr == "size":
+            return len(v.flat())
         if isinstance(v, Obj):
             if n.attr in v.fields:
                 return v.fields[n.attr]
@@ -743,6 +775,10 @@ class Folder:
                 return list(recv).index(*args)
             except ValueError:
                 raise Raised("ValueError", n)
+        if isinstance(recv, Arr) and f.attr == "copy" and not args:
+            return Arr(copy_nested(recv.data))
+        if isinstance(recv, Arr) and f.attr == "tolist" and not args:
+            return copy_nested(recv.data)
         if isinstance(recv, list) and f.attr == "copy":
             return list(recv)
         if isinstance(recv, list) and f.attr == "append":
@@ -1131,6 +1167,69 @@ class Folder:
         if isinstance(val, bool) or not is_num(val):
             raise Refuse("np.full fill value")
         return self._full(a[0], val)
+
+    # stacking / sorting of literal arrays (constant tables) ------------------------------
+    @staticmethod
+    def _rows(x):
+        x = x.data if isinstance(x, Arr) else x
+        if not isinstance(x, list):
+            raise Refuse("stacking of a non-array")
+        return x
+
+    def c_np_vstack(self, a, kw):
+        parts = a[0]
+        if not isinstance(parts, (list, tuple)) or not parts:
+            raise Refuse("vstack form")
+        out = []
+        for p in parts:
+            r = self._rows(p)
+            out.extend(copy_nested(r) if r and isinstance(r[0], list) else [copy_nested(r)])
+        if any(not isinstance(x, list) or len(x) != len(out[0]) for x in out):
+            raise Raised("ValueError")
+        return Arr(out)
+
+    def c_np_hstack(self, a, kw):
+        parts = a[0]
+        if not isinstance(parts, (list, tuple)) or not parts:
+            raise Refuse("hstack form")
+        rows = [self._rows(p) for p in parts]
+        if all(not r or not isinstance(r[0], list) for r in rows):
+            return Arr([x for r in rows for x in r])
+        if all(r and isinstance(r[0], list) for r in rows) and len({len(r) for r in rows}) == 1:
+            return Arr([[x for r in rows for x in r[i]] for i in range(len(rows[0]))])
+        raise Refuse("hstack of mixed ranks")
+
+    def c_np_column_stack(self, a, kw):
+        parts = a[0]
+        if not isinstance(parts, (list, tuple)) or not parts:
+            raise Refuse("column_stack form")
+        cols = []
+        for p in parts:
+            r = self._rows(p)
+            cols.append([[x] for x in r] if not (r and isinstance(r[0], list)) else r)
+        if len({len(c) for c in cols}) != 1:
+            raise Raised("ValueError")
+        return Arr([[x for c in cols for x in c[i]] for i in range(len(cols[0]))])
+
+    def c_np_concatenate(self, a, kw):
+        ax = kw.get("axis", a[1] if len(a) > 1 else 0)
+        if ax == 0:
+            parts = a[0]
+            if not isinstance(parts, (list, tuple)) or not parts:
+                raise Refuse("concatenate form")
+            out = []
+            for p in parts:
+                out.extend(copy_nested(self._rows(p)))
+            return Arr(out)
+        if ax in (1, -1):
+            return self.c_np_hstack([a[0]], {})
+        raise Refuse("concatenate axis")
+
+    def c_np_sort(self, a, kw):
+        x = a[0]
+        if isinstance(x, Arr) and len(x.shape) == 1 and all(is_num(v) for v in x.data) and not kw and len(a) == 1:
+            return Arr(sorted(x.data, key=lambda v: Fraction(v) if not isinstance(v, Decimal) else v))
+        raise Refuse("np.sort form")
 
     def c_np_where(self, a, kw):
         if len(a) != 3:
